@@ -84,7 +84,27 @@ def gen_cacheable_logical(rng, depth):
     return ["op", rng.choice(["&&", "||"]), gen_cacheable_logical(rng, depth - 1), gen_cacheable_logical(rng, depth - 1)]
 
 
+def pattern_history_cases():
+    """match()/search() whose PATTERN comes from the node: unusable patterns (invalid regex, non-string, missing) on
+    consecutive nodes, after the same environment evaluated usable ones on another document - an unusable pattern is
+    LogicalFalse whatever was compiled before"""
+    for fn in ("match", "search"):
+        for bad in ("a(", "[", 7, None, ["a.c"], "__absent__"):
+            def item(sv):
+                return {"s": sv} if bad == "__absent__" else {"s": sv, "p": bad}
+            doc = [item("abc"), item("abc"), {"s": "abc", "p": "b"}, item("abc"), item("b"), item("abc")]
+            other = [{"s": "abc", "p": "a.c"}, {"s": "xabcx", "p": "abc"}, {"s": "abc", "p": ".*"}]
+            for e in (["fn", fn, ["self", ["sel", ["name", "s"]]], ["self", ["sel", ["name", "p"]]]],
+                      ["not", ["fn", fn, ["self", ["sel", ["name", "s"]]], ["self", ["sel", ["name", "p"]]]]],
+                      ["op", "||", ["fn", fn, ["self", ["sel", ["name", "s"]]], ["self", ["sel", ["name", "p"]]]],
+                       ["op", "==", ["self", ["sel", ["name", "s"]]], ["lit", "b"]]]):
+                for d, o in ((doc, other), (other + doc, doc), (doc + other + doc, other)):
+                    yield {"query": {"first": {"fake": False, "segs": [["list", ["filter", e]]]}, "rest": []}, "doc": d, "other": o, "ctx": Q.CTX,
+                           "seed": 11, "std": False, "implicit_root": False, "iters": 2, "sched_seed": 5}
+
+
 def gen(rng, tier):
+    yield from pattern_history_cases()
     n = 4000 if tier == "thorough" else 450
     for i in range(n):
         docs = [gen_container(rng, 3, 3, NAMES) for _ in range(2)]
